@@ -13,7 +13,7 @@ from ..callgraph import CallGraph
 from ..selftest import Seed
 
 META = {
-    "technique": "must-pass-through + order typestate on the write routine, interprocedural constant flow of the sync flag, who-may-write on the set path",
+    "technique": "must-pass-through + order typestate on the write routine, interprocedural constant flow of the sync flag, who-may-write on the set path, must-pass of the cache update in the facade set, who-may-create files reachable from the store facades",
     "level_text": "Static proof over all paths of the anchored functions of the structural clause: write -> flush -> fsync(f.fileno()) before close on every normal path with the flag true; constant True reaches the flag; the set returns only after result(); only join(root_path, key) is written. Exhaustive over paths and sites, which crash-point sampling cannot be; it does not model the file system.",
     "level_note": "decides the structural clause below from source; does not decide the behaviour. Trusted: POSIX fsync semantics for file data (no directory sync demanded), open('wb') is buffered, Future.result() blocks and re-raises; exception edges are conservative.",
     "explanation": (
@@ -22,7 +22,8 @@ META = {
         "flag true; the key-value facade passes the constant True and the flag is forwarded unmodified through "
         "executor.submit; update_file returns only after future.result() of the write it submitted; every file-system "
         "mutation reachable from the set targets join(root_path, file_name) of the key'. It decides this clause of C17, "
-        "not the crash behaviour itself."),
+        "not the crash behaviour itself."
+        " R5: every normal return of the facade set has called the cache update leading to the write routine; nothing reachable from the facade classes (constructors included) other than the write routine creates, renames or deletes files."),
     "assumptions": [
         "POSIX: os.fsync(fd) makes the file data that the kernel holds durable; the parent directory is not synced and the property's persistence model does not ask for it",
         "open(path, 'wb') returns a BufferedWriter: write() only fills the user-space buffer until flush()/close() (frozen stdlib fact); buffering=0 waives the flush",
